@@ -157,12 +157,17 @@ def run [Inhabited ν] (t : Tensor ν α) : List (Op ν α) → Tensor ν α
     was called outside the source — undefined behaviour in the Rust) -/
 abbrev Access := Option Nat
 
+/-- the leaf accesses among the items of a run of an element iterator (`none` items: the
+    iterator had ended) -/
+def accessesOf {σ : Type} (r : Outcome (List (Option (Option Nat)) × σ)) : Outcome (List Access) :=
+  match r with
+  | .panic k => .panic k
+  | .ok (items, _) => .ok (items.filterMap id)
+
 /-- The accesses of `n` calls of `next` on a reference/copying/owning tensor iterator over the
     source `src` (C09 model: `refNext shapeNext`): one access per yielded item. -/
 def tensorAccesses (src : Iter.TSource Nat) (n : Nat) : Outcome (List Access) :=
-  match Iter.collect (Iter.refNext Iter.shapeNext src.cell) n (Iter.ShapeIter.new src.shape) with
-  | .panic k => .panic k
-  | .ok (items, _) => .ok (items.filterMap id)
+  accessesOf (Iter.collect (Iter.refNext Iter.shapeNext src.cell) n (Iter.ShapeIter.new src.shape))
 
 /-- the source a `Tensor` is for its iterators -/
 def tensorSource (t : Tensor ν α) : Iter.TSource Nat := Iter.TSource.ofTensor t
@@ -185,22 +190,15 @@ inductive MOrder where
 
 /-- The accesses of `n` calls of `next` of a matrix iterator over `src`. -/
 def matrixAccesses (src : Iter.MSource Nat) (order : MOrder) (n : Nat) : Outcome (List Access) :=
-  let fromItems (r : Outcome (List (Option (Option Nat)) × _)) : Outcome (List Access) :=
-    match r with
-    | .panic k => .panic k
-    | .ok (items, _) => .ok (items.filterMap id)
   let line (it : Outcome Iter.LineIter) : Outcome (List Access) :=
     match it with
     | .panic k => .panic k
-    | .ok it =>
-      match Iter.collect (Iter.refNext Iter.lineNext src.cell) n it with
-      | .panic k => .panic k
-      | .ok (items, _) => .ok (items.filterMap id)
+    | .ok it => accessesOf (Iter.collect (Iter.refNext Iter.lineNext src.cell) n it)
   match order with
   | .rowMajor =>
-    fromItems (Iter.collect (Iter.refNext Iter.rowMajorNext src.cell) n (Iter.MatIter.new src.rows src.columns))
+    accessesOf (Iter.collect (Iter.refNext Iter.rowMajorNext src.cell) n (Iter.MatIter.new src.rows src.columns))
   | .columnMajor =>
-    fromItems (Iter.collect (Iter.refNext Iter.colMajorNext src.cell) n (Iter.MatIter.new src.rows src.columns))
+    accessesOf (Iter.collect (Iter.refNext Iter.colMajorNext src.cell) n (Iter.MatIter.new src.rows src.columns))
   | .row r => line (Iter.LineIter.newRow src.rows src.columns r)
   | .column c => line (Iter.LineIter.newColumn src.rows src.columns c)
   | .diagonal => line (.ok (Iter.LineIter.newDiagonal src.rows src.columns))
